@@ -131,6 +131,17 @@ def run(ck, rng):
             if j:
                 cases.append("hist " + ";".join(build + ["O,0,j,0,-,-,-,-,-"] + [o for o in build if o.startswith("A")][:3] + ["O,0,j,0,-,-,-,-,-"]))
                 meta.append(("add_idempotent", items, "idem"))
+    # wide parents: k children, then re-Adds of existing names (first, last, last but one, middle) -- the lookup of an
+    # existing child must work at every size of the parent
+    for k in (15, 16, 17, 18, 31, 32, 33, 63, 64, 65, 66, 129):
+        ops = ["R,72"] + ["A,0,%s" % hx(b"c%d" % i) for i in range(1, k + 1)]
+        for j in sorted({1, k, max(1, k - 1), (k + 1) // 2}):
+            ops.append("A,0,%s" % hx(b"c%d" % j))
+        ops.append("A,0,%s" % hx(b"new"))
+        witems = [(1, b"r")] + [(2, b"c%d" % i) for i in range(1, k + 1)] + [(2, b"new")]
+        wdoc = spell(witems, plain_spelling(witems))
+        cases.append("hist " + ";".join(ops + ["O,0,d,0,-,-,-,-,-", "o,d,0,0,-,-,-,-,-,%s" % hx(wdoc)]))
+        meta.append(("wide_readd", witems, "pair"))
     impl, _ = run_impl(exe, cases)
     model = run_model([c if not c.startswith("mhist") else "hist " + c[6:] for c in cases])
     broken = None
